@@ -198,8 +198,8 @@ static void sample(pass_t* ps, trace_t* tr) {
   o += snprintf(b + o, 700 - o, "verdict=%s cps=%u steps=%lu:", vname[tr->verdict], tr->ncp, (unsigned long)tr->steps);
   for (uint32_t k = 0; k < tr->ncp && o < 600; k++) {
     cp_t* c = &tr->cp[k];
-    if (c->chosen == c->deflt && c->kind != K_YIELD) continue;
-    const char* kn = c->kind == K_SCHED ? (c->chosen >= 8 ? "env" : "preempt") : c->kind == K_YIELD ? "yield" : c->kind == K_DELAY ? "delay-store" : c->kind == K_COMMIT ? "commit" : "envchoice";
+    if (c->chosen == c->deflt && c->kind != K_YIELD && c->kind != K_INPUT) continue;
+    const char* kn = c->kind == K_SCHED ? (c->chosen >= 8 ? "env" : "preempt") : c->kind == K_YIELD ? "yield" : c->kind == K_DELAY ? "delay-store" : c->kind == K_COMMIT ? "commit" : c->kind == K_INPUT ? "input" : "envchoice";
     o += snprintf(b + o, 700 - o, " cp%u:%s->%d", k, kn, c->chosen);
   }
 }
